@@ -383,6 +383,10 @@ class FnSplicer:
         for pname in (spec.get('entry_snapshots') or []):
             self.segs.insert(toks[body_open].end, '\n        let ghost verif_entry_%s = %s;' % (pname, pname), tag + '/ghost-entry-snapshot', order=0)
             self.counts['ghost-entry-snapshot'] = self.counts.get('ghost-entry-snapshot', 0) + 1
+        if spec.get('entry_ghost'):
+            # ghost statements first thing in the body (names for entry values when a parameter is shadowed later); erased
+            self.segs.insert(toks[body_open].end, '\n        ' + spec['entry_ghost'], tag + '/ghost-entry-snapshot', order=0)
+            self.counts['ghost-entry-snapshot'] = self.counts.get('ghost-entry-snapshot', 0) + 1
         if 'or-arm-split' in (spec.get('rewrites') or []):
             self._or_arm_split(body_open, body_close)
         if 'or-pattern-guard-split' in (spec.get('rewrites') or []):
@@ -480,6 +484,12 @@ class FnSplicer:
                 if t.text != 'loop':
                     if toks[j].kind == 'ident' and toks[j].text == 'let':
                         while not (toks[j].kind == 'punct' and toks[j].text == '='):
+                            if toks[j].text in OPEN:
+                                j = match_close(toks, j)
+                            j += 1
+                    if t.text == 'for':
+                        # the pattern of a `for` may contain braces (`for Field { a, b } in v {`): the body opens after `in`
+                        while not (toks[j].kind == 'ident' and toks[j].text == 'in'):
                             if toks[j].text in OPEN:
                                 j = match_close(toks, j)
                             j += 1
